@@ -95,7 +95,11 @@ func (fr *FuncRun) stubCall(f *Frame, st *State, c *ssa.CallCommon, callee *ssa.
 		return ctx, true
 	case "bytes.Equal":
 		used()
-		w.declFun("bytes_equal", "(declare-fun bytes_equal (Slice Slice) Bool)")
+		if args[0].ArrBack != nil && args[1].ArrBack != nil && args[0].ArrLen == args[1].ArrLen {
+			// both operands are whole arrays viewed as slices: equality of the arrays
+			a, b := fr.loadRaw(st, args[0].ArrBack), fr.loadRaw(st, args[1].ArrBack)
+			return Val{T: fr.def(sBool, eq(a.T, b.T)), S: sBool}, true
+		}
 		return Val{T: fr.fresh(sBool, "bytes_equal"), S: sBool}, true
 	case "strings.Contains", "strings.HasPrefix", "strings.HasSuffix", "strings.EqualFold":
 		used()
@@ -175,6 +179,10 @@ func (fr *FuncRun) stubCall(f *Frame, st *State, c *ssa.CallCommon, callee *ssa.
 		bl, bs := w.heap("BitLen", "(Array Int Int)"), w.heap("BitSet", "(Array Int (Array Int Bool))")
 		arr := "(s-arr " + args[0].T + ")"
 		return Val{T: fr.def(sBool, and("(< "+args[1].T+" "+sel(fr.heapCur(st, bl), arr)+")", sel(sel(fr.heapCur(st, bs), arr), args[1].T))), S: sBool}, true
+	}
+	if v, ok := fr.bigStub(f, st, c, callee, full, args, pos); ok {
+		used()
+		return v, true
 	}
 	if callee.Name() == "IsZero" && sig.Recv() != nil && sig.Params().Len() == 0 {
 		if _, isArr := sig.Recv().Type().Underlying().(*types.Array); isArr {
@@ -260,4 +268,102 @@ func (fr *FuncRun) timeStub(f *Frame, st *State, c *ssa.CallCommon, callee *ssa.
 		return args[0], true
 	}
 	return Val{}, false
+}
+
+// bigStub: math/big.Int as a reference to an object whose mathematical value lives in the ghost heap
+// BigVal; uint256.Int and decimal.Decimal values are mapped to integers by uninterpreted functions.
+func (fr *FuncRun) bigStub(f *Frame, st *State, c *ssa.CallCommon, callee *ssa.Function, full string, args []Val, pos token.Pos) (Val, bool) {
+	w := fr.w
+	bv := w.heap("BigVal", "(Array Int Int)")
+	ref := func(v Val) string { return fr.valTerm(v) }
+	nonNil := func(i int) {
+		if i < len(c.Args) {
+			if v := args[i]; v.Addr == nil || !rootFresh(v.Addr) {
+				fr.assertOb(st, "nil", exprText(c.Args[i])+" (big.Int operand)", not(eq(ref(args[i]), "0")), pos, "nil *big.Int operand")
+			}
+		}
+	}
+	setVal := func(z, val string, fresh bool) {
+		saved := fr.curWriteFresh
+		fr.curWriteFresh = fresh
+		fr.heapSet(st, bv, sto(fr.heapCur(st, bv), z, val))
+		fr.curWriteFresh = saved
+	}
+	get := func(x string) string { return sel(fr.heapCur(st, bv), x) }
+	switch full {
+	case "math/big.NewInt":
+		r := fr.allocRef("big")
+		setVal(r, args[0].T, true)
+		return Val{T: r, S: sInt, Addr: ObjAddr{Ref: r, Elem: callee.Signature.Results().At(0).Type().(*types.Pointer).Elem(), Fresh: true}}, true
+	case "(*math/big.Int).Add", "(*math/big.Int).Sub", "(*math/big.Int).Mul", "(*math/big.Int).Div", "(*math/big.Int).Quo":
+		nonNil(0)
+		nonNil(1)
+		nonNil(2)
+		z, x, y := ref(args[0]), ref(args[1]), ref(args[2])
+		var val string
+		switch callee.Name() {
+		case "Add":
+			val = "(+ " + get(x) + " " + get(y) + ")"
+		case "Sub":
+			val = "(- " + get(x) + " " + get(y) + ")"
+		case "Mul":
+			val = "(* " + get(x) + " " + get(y) + ")"
+		case "Div":
+			fr.assertOb(st, "div0", exprText(c.Args[2])+" (big.Int divisor)", not(eq(get(y), "0")), pos, "big.Int division by zero")
+			val = "(div " + get(x) + " " + get(y) + ")"
+		case "Quo":
+			fr.assertOb(st, "div0", exprText(c.Args[2])+" (big.Int divisor)", not(eq(get(y), "0")), pos, "big.Int division by zero")
+			val = fmt.Sprintf("(ite (>= %s 0) (div %s %s) (- (div (- %s) %s)))", get(x), get(x), get(y), get(x), get(y))
+		}
+		fresh := args[0].Addr != nil && rootFresh(args[0].Addr)
+		setVal(z, fr.def(sInt, val), fresh)
+		return args[0], true
+	case "(*math/big.Int).Cmp":
+		nonNil(0)
+		nonNil(1)
+		x, y := get(ref(args[0])), get(ref(args[1]))
+		return Val{T: fr.def(sInt, fmt.Sprintf("(ite (< %s %s) (- 1) (ite (= %s %s) 0 1))", x, y, x, y)), S: sInt}, true
+	case "(*math/big.Int).Sign":
+		nonNil(0)
+		x := get(ref(args[0]))
+		return Val{T: fr.def(sInt, fmt.Sprintf("(ite (< %s 0) (- 1) (ite (= %s 0) 0 1))", x, x)), S: sInt}, true
+	case "(*math/big.Int).String", "(*math/big.Int).Text":
+		return fr.havocResults(st, callee.Signature.Results(), "bigstr"), true
+	case "(*github.com/holiman/uint256.Int).ToBig":
+		nonNil(0)
+		w.declFun("u256_of", "(declare-fun u256_of ((Array Int Int)) Int)")
+		arr := fr.load(st, fr.ptrAddr(args[0], c.Args[0]), c.Args[0].Type().(*types.Pointer).Elem())
+		r := fr.allocRef("big")
+		v := fr.def(sInt, "(u256_of "+arr.T+")")
+		fr.assume(st, "(>= "+v+" 0)")
+		setVal(r, v, true)
+		return Val{T: r, S: sInt, Addr: ObjAddr{Ref: r, Elem: callee.Signature.Results().At(0).Type().(*types.Pointer).Elem(), Fresh: true}}, true
+	case "(*github.com/holiman/uint256.Int).Cmp":
+		nonNil(0)
+		nonNil(1)
+		w.declFun("u256_of", "(declare-fun u256_of ((Array Int Int)) Int)")
+		a := fr.load(st, fr.ptrAddr(args[0], c.Args[0]), c.Args[0].Type().(*types.Pointer).Elem())
+		b := fr.load(st, fr.ptrAddr(args[1], c.Args[1]), c.Args[1].Type().(*types.Pointer).Elem())
+		x, y := "(u256_of "+a.T+")", "(u256_of "+b.T+")"
+		fr.assume(st, "(and (>= "+x+" 0) (>= "+y+" 0) (= (u256_of ((as const (Array Int Int)) 0)) 0))")
+		return Val{T: fr.def(sInt, fmt.Sprintf("(ite (< %s %s) (- 1) (ite (= %s %s) 0 1))", x, y, x, y)), S: sInt}, true
+	case "github.com/holiman/uint256.NewInt":
+		r := fr.allocRef("u256")
+		return Val{T: r, S: sInt, Addr: ObjAddr{Ref: r, Elem: callee.Signature.Results().At(0).Type().(*types.Pointer).Elem(), Fresh: true}}, true
+	case "(github.com/shopspring/decimal.Decimal).BigInt":
+		srt := w.SortOf(c.Args[0].Type())
+		w.declFun("dec_bigint", fmt.Sprintf("(declare-fun dec_bigint (%s) Int)", srt))
+		r := fr.allocRef("big")
+		setVal(r, "(dec_bigint "+args[0].T+")", true)
+		return Val{T: r, S: sInt, Addr: ObjAddr{Ref: r, Elem: callee.Signature.Results().At(0).Type().(*types.Pointer).Elem(), Fresh: true}}, true
+	}
+	return Val{}, false
+}
+
+// ptrAddr interprets a pointer value as an address.
+func (fr *FuncRun) ptrAddr(v Val, sv ssa.Value) Addr {
+	if v.Addr != nil {
+		return v.Addr
+	}
+	return ObjAddr{Ref: v.T, Elem: sv.Type().Underlying().(*types.Pointer).Elem()}
 }
